@@ -9,7 +9,9 @@ executed on a real tmpfs tree.  Worker type "thread": the tasks share the
 FileSet objects; "process" (typhon's default for move/delete): every task
 gets pickled copies and shares only the file system.
 
-Shard descriptors: ("threads", tier, alphabet, op, wtype, bound, part, nparts).
+Shard descriptors: ("threads", tier, alphabet, op, wtype, bound, part, nparts,
+root) with root "full" (one file in every slot) or "twins" (two files with
+the same base name in different directories).
 """
 import contextlib
 import io
@@ -56,17 +58,30 @@ def candidate_ops(tier):
             else:
                 bounds = {"thread": 2, "process": 2 if sel == "period" else 1}
             for wtype, b in bounds.items():
-                out.append((alphabet, op, wtype, b))
+                out.append((alphabet, op, wtype, b, "full"))
+    # two files of the same base name in different directories: whatever a
+    # worker derives from the base name alone (a temporary, a flat target)
+    # is shared by the two tasks
+    for op in (("mv", "A", "GZ", "all", False, "conv"),
+               ("mv", "A", "GZ", "all", True, "conv"),
+               ("mv", "A", "B2", "all", False, "call"),
+               ("mv", "A", "DOY", "all", True, "raw"),
+               ("del", "A", "all", False)):
+        for wtype in ("thread", "process"):
+            out.append(("layout", op, wtype, 1 if q else 2, "twins"))
+    for op in (("mv", "A", "J", "all", False, "conv"),
+               ("mv", "A", "J", "all", True, "call")):
+        out.append(("forms", op, "thread", 1 if q else 2, "twins"))
     return out
 
 
 def shards(tier, seed):
     out = []
-    for alphabet, op, wtype, bound in candidate_ops(tier):
+    for alphabet, op, wtype, bound, root in candidate_ops(tier):
         nparts = 1 if bound <= 1 else 16
         for part in range(nparts):
             out.append(("threads", tier, alphabet, op, wtype, bound, part,
-                        nparts))
+                        nparts, root))
     return out
 
 
@@ -81,12 +96,12 @@ class NoGC:
         return 0
 
 
-def make_run(op, wtype):
+def make_run(op, wtype, root="full"):
     from checks import c11_conserve as cc
     import typhon.files.fileset as fsmod
     from typhon.files.fileset import NoFilesError
     tree = cc.Tree()
-    state = model.roots()["full"]
+    state = model.twins_root() if root == "twins" else model.roots()["full"]
     tree.materialise(state)
     snap = tree.snapshot()
     new, chosen = model.step(state, op)
@@ -164,9 +179,9 @@ def make_run(op, wtype):
 
 def run_shard(shard):
     import gc
-    _, tier, alphabet, op, wtype, bound, part, nparts = shard
+    _, tier, alphabet, op, wtype, bound, part, nparts, root = shard
     res = driver.ShardResult()
-    run, tree = make_run(op, wtype)
+    run, tree = make_run(op, wtype, root)
     stats = explorer.Stats()
     sites, trees = set(), set()
     maxpoints = [0]
@@ -195,7 +210,8 @@ def run_shard(shard):
                 res.error("NONDETERMINISM C11 threads %r %s" % (op, wtype))
                 return
             res.violation(bad[0], dict(part="threads", op=list(op),
-                                       wtype=wtype, choices=ctx.choices,
+                                       wtype=wtype, root=root,
+                                       choices=ctx.choices,
                                        switches=[list(t) for t in
                                                  sched.trace]),
                           bad[1], bad[2])
@@ -227,6 +243,7 @@ def run_shard(shard):
     if part == 0:
         res.count("thread_operations")
         res.sample(dict(part="threads", operation=list(op), worker_type=wtype,
+                        root=root,
                         preemption_bound=bound,
                         scheduling_points_per_execution=maxpoints[0]))
     return res
@@ -234,7 +251,7 @@ def run_shard(shard):
 
 def replay(case):
     op = tuple(case["op"])
-    run, tree = make_run(op, case["wtype"])
+    run, tree = make_run(op, case["wtype"], case.get("root", "full"))
     try:
         ctx = explorer.Ctx(tuple(tuple(x) for x in case["choices"]))
         observed, bad, sched = run(ctx)
